@@ -54,6 +54,19 @@ def _arg_ties(prog, vals):
     return False
 
 
+@excl("KF-setitem-int-with-negstep")
+def _setitem_int_negstep(prog, vals):
+    """x[..] = v where the index mixes an integer with a negative-step slice."""
+    for s, a, r in _stmts(prog, vals):
+        if s["op"] == "setitem":
+            t = s["index"]["tuple"]
+            has_int = any(isinstance(e, int) and not isinstance(e, bool) for e in t)
+            has_neg = any(isinstance(e, dict) and "slice" in e and (e["slice"][2] or 1) < 0 for e in t)
+            if has_int and has_neg:
+                return True
+    return False
+
+
 @excl("KF-pad-wide")
 def _pad_wide(prog, vals):
     """pad with mode reflect/symmetric/wrap and a width beyond what one reflection/copy of the axis provides."""
